@@ -17,7 +17,7 @@ from fimverif.engines import topo
 
 ID = "C10"
 RULE = ("Exhaustive product over 15 service types x interface multisets of size 0..4 over {DedicatedPort, SharedPort, "
-        "FacilityPort, SubInterface} x site placements (one/two/three sites) x declared site (none/matching/different) x "
+        "FacilityPort, SubInterface} (+ TrunkPort of a node-level service for types that restrict interface kinds) x site placements (one/two/three sites) x declared site (none/matching/different) x "
         "constrained properties (quick: none and each one alone; thorough: all 32 subsets of mirror_port, mirror_vlan, "
         "mirror_direction, controller_url, ero), built through the public API; plus all node types x "
         "{site empty, components, image, management ip}; plus Hypothesis-generated slices with 2-3 services. Oracle: "
@@ -77,7 +77,7 @@ PINNED_NODE = {
     'Switch': {'forb': ['attached_components_info', 'image_type', 'image_ref'], 'req': []},
     'VM': {'forb': [], 'req': ['site']},
 }
-KINDS = ["DedicatedPort", "SharedPort", "FacilityPort", "SubInterface"]
+KINDS = ["DedicatedPort", "SharedPort", "FacilityPort", "SubInterface", "TrunkPort"]
 PROPS = ["mirror_port", "mirror_vlan", "mirror_direction", "controller_url", "ero"]
 SITES = ["RENC", "UKY", "LBNL"]
 
@@ -138,7 +138,8 @@ def enumerate_cases(tier):
         for n in range(0, 5):
             if t == "PortMirror" and n != 1:
                 continue    # the port-mirror API takes exactly one interface
-            for kinds in itertools.combinations_with_replacement(range(4), n):
+            kind_range = range(5) if (PINNED_SERVICE[t]["rit"] or tier == "thorough") else range(4)
+            for kinds in itertools.combinations_with_replacement(kind_range, n):
                 if tier == "quick" and n == 4 and len(set(kinds)) > 1:
                     continue        # quick: mixed interface kinds only up to 3 interfaces
                 for pl in _placements(n):
@@ -150,6 +151,13 @@ def enumerate_cases(tier):
                                 continue
                             yield {"kind": "svc", "services": [{"type": t, "ifs": [[KINDS[k], s] for k, s in zip(kinds, pl)],
                                                                 "declared": declared, "props": props}]}
+                            # the same slice with its last interface(s) connected AFTER the service was created
+                            if t != "PortMirror" and n >= 1 and not props and declared is None and \
+                                    (t == "L2PTP" or len(set(kinds)) > 1 or n == 1):
+                                for late in range(1, min(n, 2) + 1):
+                                    yield {"kind": "svc", "services": [{"type": t, "late": late, "declared": None,
+                                                                        "ifs": [[KINDS[k], s] for k, s in zip(kinds, pl)],
+                                                                        "props": []}]}
 
 
 @st.composite
@@ -158,7 +166,8 @@ def _multi(draw):
     for _ in range(draw(st.integers(2, 3))):
         t = draw(st.sampled_from([x for x in PINNED_SERVICE if x != "PortMirror"] + ["PortMirror"]))
         n = 1 if t == "PortMirror" else draw(st.integers(0, 4))
-        svcs.append({"type": t, "ifs": [[draw(st.sampled_from(KINDS)), draw(st.integers(0, 2))] for _ in range(n)],
+        svcs.append({"type": t, "late": 0 if t == "PortMirror" else draw(st.sampled_from([0, 0, 1, 2])),
+                     "ifs": [[draw(st.sampled_from(KINDS)), draw(st.integers(0, 2))] for _ in range(n)],
                      "declared": draw(st.sampled_from([None, None, "match", "other"])),
                      "props": draw(st.lists(st.sampled_from(PROPS), unique=True, max_size=2))})
     return {"kind": "svc", "services": svcs}
@@ -220,6 +229,7 @@ def run_case(case):
     if case["kind"] == "node":
         return run_node(case)
     from fim.slivers.network_service import ServiceType, MirrorDirection
+    from fim.slivers.interface_info import InterfaceType
     from fim.slivers.component_catalog import ComponentModelType
     from fim.slivers.capacities_labels import Labels
     from fim.slivers.path_info import ERO, Path
@@ -242,6 +252,10 @@ def run_case(case):
                 f = t.add_facility(name=f"fac{k}", site=site)
                 return f.interface_list[0]
             node = t.add_node(name=f"n{k}", site=site)
+            if kind == "TrunkPort":
+                # a port of a node-level service (as switches have), not one of the kinds L2PTP permits
+                ns = node.add_network_service(name=f"nsvc{k}", nstype=ServiceType.OVS)
+                return ns.add_interface(name=f"tp{k}", itype=InterfaceType.TrunkPort)
             if kind == "SharedPort":
                 c = node.add_component(name=f"nic{k}", model_type=ComponentModelType.SharedNIC_ConnectX_6)
                 return c.interface_list[0]
@@ -252,6 +266,7 @@ def run_case(case):
             return port.add_child_interface(name=f"sub{k}", labels=Labels(vlan=str(100 + k)))
 
         expectations = []
+        partial = False
         for si, svc in enumerate(case["services"]):
             c = PINNED_SERVICE[svc["type"]]
             ifs = [mk_interface(k, s) for k, s in svc["ifs"]]
@@ -278,6 +293,10 @@ def run_case(case):
                     kw[p] = e
             before = it.snap()
             guard = svc["type"] == "L2PTP" and any(k == "SharedPort" for k, _ in svc["ifs"])
+            late = min(int(svc.get("late") or 0), len(ifs))
+            late_ifs = ifs[len(ifs) - late:] if late else []
+            ifs = ifs[:len(ifs) - late] if late else ifs
+            refused_late = False
             try:
                 if svc["type"] == "PortMirror":
                     extra = {k: v_ for k, v_ in kw.items() if k not in ("mirror_port", "mirror_direction", "mirror_vlan")}
@@ -288,6 +307,26 @@ def run_case(case):
                 else:
                     s = t.add_network_service(name=f"svc{si}", nstype=ServiceType[svc["type"]], interfaces=ifs,
                                               site=declared, **kw)
+                    for li in late_ifs:
+                        mid = it.snap()
+                        try:
+                            s.connect_interface(li)
+                        except TopologyException:
+                            # clause 3 at connect time: refusal must be at once and leave the model unchanged
+                            if not (guard and li.type.name == "SharedPort"):
+                                raise
+                            if it.snap().canon() != mid.canon():
+                                v.append(("C10/L2PTP/guardrail/model-changed", f"refused connect_interface left "
+                                                                               f"changes | {svc}"))
+                            labels.add("guardrail-at-connect")
+                            refused_late = True
+                            break
+                        else:
+                            if svc["type"] == "L2PTP" and li.type.name == "SharedPort":
+                                v.append(("C10/L2PTP/guardrail/shared-port-accepted-by-connect_interface",
+                                          f"connect_interface attached a SharedPort to an L2PTP service | {svc}"))
+                    if late_ifs:
+                        labels.add("late-connect")
                 created = True
             except TopologyException as e:
                 created = False
@@ -295,11 +334,13 @@ def run_case(case):
                     v.append((f"C10/{svc['type']}/create/raised", f"service creation raised {e} | {svc}"))
                 elif it.snap().canon() != before.canon():
                     v.append((f"C10/{svc['type']}/guardrail/model-changed", f"refused connection left changes | {svc}"))
-            if guard and created:
+            if guard and created and not refused_late:
                 v.append(("C10/L2PTP/guardrail/shared-port-accepted", f"L2PTP service accepted a SharedPort | {svc}"))
             if guard:
                 labels.add("guardrail")
                 nt = True
+                if refused_late:
+                    partial = True      # the service exists with fewer interfaces than described: nothing to predict
                 continue
             if not created:
                 continue
@@ -310,7 +351,9 @@ def run_case(case):
             if n in {c["min"] - 1, c["min"], c["max"], c["max"] + 1} or (c["sites"] and nsites in (c["sites"], c["sites"] + 1)) \
                     or len(svc["props"]) == 1 or svc["declared"] == "other":
                 nt = True
-        if v:
+        if v or partial:
+            if nt:
+                labels.add("nontrivial")
             return {"v": v, "nt": nt, "labels": sorted(labels)}
         exp_accept = all(e[2] for e in expectations)
         try:
